@@ -206,11 +206,11 @@ func (p *parsing) parseFuncParameters(tok token, isMacro, isResult bool) ([]*ast
 	}
 
 	if ellipses.param != nil {
-		if isResult {
-			panic(syntaxError(ellipses.param.Type.Pos(), "cannot use ... in receiver or result parameter list"))
-		}
 		if ellipses.param.Type == nil {
 			panic(syntaxError(tok.pos, "final argument in variadic function missing type"))
+		}
+		if isResult {
+			panic(syntaxError(ellipses.param.Type.Pos(), "cannot use ... in receiver or result parameter list"))
 		}
 		final := ellipses.param
 		for i := ellipses.index - 1; i >= 0; i-- {
